@@ -220,6 +220,9 @@ fn c09_jobs(thorough: bool) -> Vec<Job> {
         out.push(s(2, 2, vec![3, 2], 3));
         out.push(s(2, 1, vec![3, 1], 3));
     }
+    // min_bond that is NOT a multiple of tokens_per_weight: a stake can fall below min_bond without leaving its
+    // weight step (3 -> 2 with tokens_per_weight 2, min_bond 3) and the member must still go (seeded C09_r12_1)
+    out.push(s(2, 3, vec![3, 2], 3));
     // a zero unbonding period (claims mature in the block of the unbond), block- and time-based
     for (time, nm) in [(false, "Height(0)"), (true, "Time(0)")] {
         out.push(Job::S9(
